@@ -24,6 +24,10 @@ def spec(level, extra_assume=None, run=default_run):
 
 
 TABLE = {
+    "C05": spec("model_checking", [
+        "the per-stream reset policy table (which of absent/error is a reset, which streams ignore absent samples) is "
+        "transcribed from the crate's documentation and property statement",
+        "behaviour of freeze after an erroring or absent condition until the next false condition is left open"]),
     "C09": spec("model_checking", [
         "link structure is observed through the public getters only (own states are distinct powers of two so "
         "a mean identifies the partner exactly)"]),
